@@ -301,6 +301,7 @@ func c14(c *core.Ctx) map[string]interface{} {
 	r14shift(c)
 	r14zero(c)
 	r14cursor(c)
+	r14nilptr(c)
 	r14loop(c)
 	r14alloc(c)
 	r14reflect(c)
